@@ -32,6 +32,7 @@ fn main() {
                 Some("C04") => checks::check_c04(tier),
                 Some("C03") => checks::check_c03(tier),
                 Some("C17") => checks::check_c17(tier),
+                Some("C16") => checks::check_c16(tier),
                 _ => {
                     eprintln!("unknown property");
                     2
@@ -43,6 +44,20 @@ fn main() {
             let tier = acc::Tier::parse(&args[4]);
             let solo = args.get(6).map(|s| s == "solo").unwrap_or(false);
             orch::worker_main(&args[2], seed, tier, &args[5], solo)
+        }
+        Some("fresh") => engine_purity::fresh_main(),
+        Some("digests") => {
+            let seed: u64 = args[2].parse().unwrap();
+            let tier = acc::Tier::parse(&args[3]);
+            engine_purity::digests_main(seed, tier, args[4].parse().unwrap(), args[5].parse().unwrap())
+        }
+        Some("one-of-batch") => {
+            let seed: u64 = args[2].parse().unwrap();
+            let tier = acc::Tier::parse(&args[3]);
+            let i: usize = args[4].parse().unwrap();
+            let b = engine_purity::batch(seed, tier);
+            println!("{}", serde_json::json!({"index": i, "digest": engine_purity::plain_digest(&b.get(i))}));
+            0
         }
         Some("replay") => replay::replay_main(&args[2], args.get(3).is_some()),
         Some("replay-inner") => replay::replay_inner(&args[2]),
